@@ -18,6 +18,9 @@ use crate::val::{Bind, Caller, V, fill, mask};
 pub enum P {
     /// receiver string of a String method / view
     Recv,
+    /// receiver of `replace` (two further string arguments: the cross
+    /// product is the largest of all, so its receivers may be bounded lower)
+    RecvReplace,
     /// second / third string argument (needle, prefix, separator, from, to)
     Str2,
     /// index into a string view (bytes / chars / lines)
@@ -722,7 +725,7 @@ pub fn ops() -> Vec<Op> {
         "method",
         &["method String.replace(self: String, from: String, to: String) -> String"],
         "fn f(s: String, t: String, u: String) -> String { s.replace(t, u) }",
-        &[P::Recv, P::Str2, P::Str2],
+        &[P::RecvReplace, P::Str2, P::Str2],
         r!(|a| is(V::Str(a[0].s().replace(a[1].s(), a[2].s())))),
         d!(|a| V::Str(rs(&a[0]).replace(a[1].s(), a[2].s()).to_string())),
     );
